@@ -118,17 +118,23 @@ func copyRuns(r []run) []run {
 	return out
 }
 
-func truncCase(w *wire.Writer, r *pbfrun.Runner, f *file, procs int) (*wire.Case, error) {
+func truncCase(w *wire.Writer, r *pbfrun.Runner, f *file, procs int, headerFirst bool) (*wire.Case, error) {
 	fds := pbfrun.Describe(f.desc, f.data, f.frames, [3]bool{}, nil)
 	units := make([]int, len(f.data)+1)
 	for i := range units {
 		units[i] = i
 	}
-	obs, err := r.Run(pbfrun.Job{Data: f.data, Procs: procs, Mode: "cut", Units: units})
+	obs, err := r.Run(pbfrun.Job{Data: f.data, Procs: procs, Mode: "cut", Units: units, HeaderFirst: headerFirst})
 	if err != nil {
 		return nil, err
 	}
 	var runs []run
+	for i := range obs {
+		if obs[i].Skipped {
+			obs = obs[:i] // the runner gave up after repeated hangs: a partial sweep (flagged by Coq)
+			break
+		}
+	}
 	for i := range obs {
 		o := &obs[i]
 		oc := outcome(o)
@@ -171,15 +177,25 @@ func truncCase(w *wire.Writer, r *pbfrun.Runner, f *file, procs int) (*wire.Case
 			expOut = 0
 		}
 		if outcome(o) != expOut || !eqToks(exp, o.Objs) {
+			how := o.ErrText + o.CrashMsg
+			if o.Hang {
+				how += "the scan did not return (killed by the watchdog)"
+			}
+			if headerFirst {
+				how = "[Header() called first] " + how
+			}
 			oracle = fmt.Sprintf("cut %d of %d: observed %d objects outcome %d (%s), expected %d objects outcome %d",
-				o.Unit, len(f.data), len(o.Objs), outcome(o), o.ErrText+o.CrashMsg, len(exp), expOut)
+				o.Unit, len(f.data), len(o.Objs), outcome(o), how, len(exp), expOut)
 			break
 		}
 	}
 	c := emitTrunc(procs, fds, runs)
 	c.OracleFail = oracle
 	c.Desc = map[string]interface{}{"kind": "truncation sweep: every cut 0..size", "file_seed": f.seed, "size": len(f.data),
-		"procs": procs, "frames": fds, "runs": runs, "file": f.desc}
+		"procs": procs, "header_called_first": headerFirst, "frames": fds, "runs": runs, "file": f.desc}
+	if headerFirst {
+		c.Class = "trunc:header_first"
+	}
 	lastTrunc = &truncParts{procs, fds, runs}
 	w.Count(fmt.Sprintf("trunc:procs=%d", procs))
 	w.Stats["trunc:cuts"] += len(units)
@@ -332,6 +348,9 @@ func damages() []dmg {
 		denseDmg("dense_short_version", func(d *pbfgen.Dense, _ uint32) { d.Trim = map[string]int{"version": 1} }),
 		denseDmg("dense_short_usersid", func(d *pbfgen.Dense, _ uint32) { d.Trim = map[string]int{"user_sid": 1} }),
 		denseDmg("dense_short_keysvals", func(d *pbfgen.Dense, _ uint32) { d.Trim = map[string]int{"keys_vals": 1} }),
+		// keys_vals ends right after a node's 0 delimiter before every node is covered
+		denseDmg("dense_keysvals_node_boundary", func(d *pbfgen.Dense, _ uint32) { d.Trim = map[string]int{"keys_vals": 3} }),
+		denseDmg("dense_keysvals_one_node", func(d *pbfgen.Dense, _ uint32) { d.Trim = map[string]int{"keys_vals": 4} }),
 		denseDmg("sid_dense_key", func(d *pbfgen.Dense, bad uint32) { d.Nodes[2].Tags[0].K = bad }),
 		denseDmg("sid_dense_val", func(d *pbfgen.Dense, bad uint32) { d.Nodes[0].Tags[0].V = bad }),
 		denseDmg("sid_dense_key_neg", func(d *pbfgen.Dense, bad uint32) { d.Nodes[0].Tags[0].K = math.MaxUint32 }),
@@ -426,7 +445,18 @@ func observeDamage(w *wire.Writer, r *pbfrun.Runner, f *file, name string, pos i
 	c.Int(tag)
 	pbfrun.EmitFrames(c, fds)
 	c.Int(int64(di))
-	c.Len(len(procsList))
+	type runCfg struct {
+		procs int
+		hf    bool
+	}
+	var cfgs []runCfg
+	for _, p := range procsList {
+		cfgs = append(cfgs, runCfg{p, false})
+	}
+	if di == 0 { // damage in the first block: also Header() first, then the Scan loop
+		cfgs = append(cfgs, runCfg{1, true}, runCfg{5, true})
+	}
+	c.Len(len(cfgs))
 	type ob struct {
 		Procs   int      `json:"procs"`
 		Objs    []uint64 `json:"objs"`
@@ -434,17 +464,29 @@ func observeDamage(w *wire.Writer, r *pbfrun.Runner, f *file, name string, pos i
 		Msg     string   `json:"msg"`
 	}
 	var obsl []ob
-	for _, p := range procsList {
-		obs, err := r.Run(pbfrun.Job{Data: f.data, Procs: p, Mode: "cut", Units: []int{len(f.data)}})
+	for _, rc := range cfgs {
+		p := rc.procs
+		obs, err := r.Run(pbfrun.Job{Data: f.data, Procs: p, Mode: "cut", Units: []int{len(f.data)}, HeaderFirst: rc.hf})
 		if err != nil {
 			return nil, err
 		}
 		o := &obs[0]
 		oc := outcome(o)
+		if o.Skipped {
+			oc = 3
+		}
 		c.Int(int64(p))
 		pbfrun.EmitToks(c, o.Objs)
 		c.Int(oc)
-		obsl = append(obsl, ob{p, o.Objs, oc, o.ErrText + o.CrashMsg})
+		msg := o.ErrText + o.CrashMsg
+		if o.Hang {
+			msg += "the scan did not return (killed by the watchdog)"
+		}
+		if rc.hf {
+			msg = "[Header() called first] " + msg
+			w.Count(fmt.Sprintf("damage:header_first:outcome=%d", oc))
+		}
+		obsl = append(obsl, ob{p, o.Objs, oc, msg})
 		good := oc == 1 && eqToks(o.Objs, exp)
 		if tag == 4 {
 			good = good || (oc == 0 && eqToks(o.Objs, all))
@@ -452,7 +494,7 @@ func observeDamage(w *wire.Writer, r *pbfrun.Runner, f *file, name string, pos i
 		}
 		if c.OracleFail == "" && !good {
 			c.OracleFail = fmt.Sprintf("damage %s at block %d, procs %d: observed %d objects outcome %d (%s), expected %d objects and an error",
-				name, pos, p, len(o.Objs), oc, o.ErrText+o.CrashMsg, len(exp))
+				name, pos, p, len(o.Objs), oc, msg, len(exp))
 		}
 		w.Count(fmt.Sprintf("damage:outcome=%d", oc))
 	}
@@ -629,19 +671,34 @@ func main() {
 	nDamage = int(float64(nDamage)*a.Scale + 0.5)
 
 	for i := 0; i < nTrunc; i++ {
+		if r.GaveUp() {
+			w.Notes = append(w.Notes, "the runner gave up after repeated hangs: generation stopped early")
+			break
+		}
 		f := genFile(rng, maxSize, i%4 == 3)
 		for _, p := range procsList {
-			c, err := truncCase(w, r, f, p)
+			c, err := truncCase(w, r, f, p, false)
 			if err != nil {
 				fail(err)
 			}
 			c.Trivial = len(f.desc.Blocks) == 0
 			w.Add(c)
 		}
+		// the same sweep for a caller that asks for the header first, ignores its error and
+		// goes on to the Scan loop (one decoder count per file, rotating)
+		c, err := truncCase(w, r, f, procsList[i%len(procsList)], true)
+		if err != nil {
+			fail(err)
+		}
+		w.Add(c)
 	}
 
 	dms := damages()
 	for i := 0; i < nDamage; i++ {
+		if r.GaveUp() {
+			w.Notes = append(w.Notes, "the runner gave up after repeated hangs: generation stopped early")
+			break
+		}
 		f := genFile(rng, maxSize, i%3 == 2)
 		for di := range dms {
 			dm := &dms[di]
@@ -655,6 +712,9 @@ func main() {
 				}
 			}
 			for _, pos := range poss {
+				if r.GaveUp() {
+					break
+				}
 				c, err := damageCase(w, r, f, dm, pos, rng)
 				if err != nil {
 					fail(err)
@@ -689,6 +749,9 @@ func main() {
 			nz = 6
 		}
 		for i := 0; i < nz; i++ {
+			if r.GaveUp() {
+				break
+			}
 			base := genFile(rng, maxSize, i%3 == 2)
 			for _, build := range []string{"cgo", "purego"} {
 				rr := zr[build]
